@@ -17,12 +17,12 @@ PROPERTY = "C13"
 LEVEL = "exploration"
 RULE = ("history = event sequence over {key-addressed operation (get, set, delete, incr, get_many, set_many) on a key "
         "owned by server i; clock advance by 0.5/1/1.5 retry_timeouts or 0.5/1/1+eps/2+eps dead_timeouts; server i starts "
-        "failing with ConnectionRefused / timeout / reset / OSError; server i heals} for 1-3 servers x retry_attempts "
+        "failing with ConnectionRefused / timeout / reset at connect / reset while the reply is awaited (connection and request accepted) / OSError; server i heals} for 1-3 servers x retry_attempts "
         "0/1/2 x ignore_exc off/on (retry_timeout 1, dead_timeout 60). Two back-ends: scripted clients installed through "
         "client_class (each method call is a contact) and real Clients over the fake network (connect/sendall events "
         "grouped per public call are contacts). Bounded-exhaustive: every sequence up to depth 5 (thorough 7) over an "
         "8-symbol alphabet (2 servers; get on each, set_many; three advances; fail/heal of server 0) x all six "
-        "configurations; 'probe trains' - server 0 failing, then every sequence of up to 7 (thorough 9) gaps drawn from {below retry_timeout, above it, above dead_timeout} each followed by an operation, with and without a heal part-way; 'two outages' - three servers, two of them starting to fail at different instants of a 10-point time grid whose gaps straddle dead_timeout in several ways, traffic on every key at every subset of the remaining instants (one server is evicted while another is being brought back); Hypothesis sequences up to length 40. Observation through public seams only: the contact log "
+        "configurations; 'probe trains' - server 0 failing, then every sequence of up to 7 (thorough 9) gaps drawn from {below retry_timeout, above it, above dead_timeout} each followed by an operation, with and without a heal part-way; the same trains to depth 3 (thorough 5) over real Clients on the fake network for each of the five failure kinds; 'two outages' - three servers, two of them starting to fail at different instants of a 10-point time grid whose gaps straddle dead_timeout in several ways, traffic on every key at every subset of the remaining instants (one server is evicted while another is being brought back); Hypothesis sequences up to length 40. Observation through public seams only: the contact log "
         "and a hasher passed as hasher= (a RendezvousHash subclass, or a minimal class offering only the documented get_node/add_node/remove_node) that records (rotation at that instant, key, node) for every "
         "routing decision. Oracle: per continuous failing interval of a server, <= 2 contacts in any retry_timeout "
         "window and <= retry_attempts+2 in any dead_timeout window; every routing decision equals the reference "
@@ -46,7 +46,10 @@ ASSUMPTIONS = [
 
 RT, DT = 1, 60
 ERR = {"refused": lambda: ConnectionRefusedError(111, "refused"), "timeout": lambda: TimeoutError("timed out"),
-       "reset": lambda: ConnectionResetError(104, "reset"), "oserror": lambda: OSError(113, "no route")}
+       "reset": lambda: ConnectionResetError(104, "reset"), "oserror": lambda: OSError(113, "no route"),
+       # real back-end: the connection and the request are accepted, the reset comes when the reply is awaited (a proxy
+       # in front of a dead server); scripted back-end: the same as "reset"
+       "reset-recv": lambda: ConnectionResetError(104, "reset while waiting for the reply")}
 
 
 class _T:
@@ -459,6 +462,22 @@ def two_outage_cases(tier, seed):
                        "events": ev, "hasher": "minimal" if mask % 5 == 0 else "subclass"}
 
 
+def real_train_cases(tier, seed):
+    """the probe trains over real Clients on the fake network, one per way a server can fail at the socket level"""
+    depth = 3 if tier == "quick" else 5
+    for kind in sorted(ERR):
+        for ra in (0, 1, 2):
+            for ie in (False, True):
+                for n in range(1, depth + 1):
+                    for gaps in itertools.product(range(3), repeat=n):
+                        opn = ("get", "set", "incr", "get_many")[(sum(gaps) + n + ra) % 4]
+                        ev = [["fail", 0, kind], ["op", opn, 0]]
+                        for g in gaps:
+                            ev += [["adv", GAPS[g]], ["op", opn, 0]]
+                        yield {"servers": 2 + (n + ra) % 2, "retry_attempts": ra, "ignore_exc": ie, "backend": "real", "recovery_step": 7, "events": ev,
+                               "recovery_op": ("get", "set_many", "get_many")[(sum(gaps) + n) % 3]}
+
+
 def minimise(case, still_fails):
     ev = ddmin_list(case["events"], lambda e: still_fails(dict(case, events=e)))
     return dict(case, events=ev)
@@ -479,6 +498,7 @@ def history_strategy(tier):
 PARTS = [
     Part("exhaustive-depth", "enum", check, cases=exhaustive_cases, exhaustive=True, minimise=minimise, distinct_by_construction=True),
     Part("probe-trains", "enum", check, cases=probe_train_cases, exhaustive=True, minimise=minimise, distinct_by_construction=True),
+    Part("real-probe-trains", "enum", check, cases=real_train_cases, exhaustive=True, minimise=minimise, distinct_by_construction=True),
     Part("two-outages", "enum", check, cases=two_outage_cases, exhaustive=True, minimise=minimise, distinct_by_construction=True),
     Part("random-histories", "hyp", check, strategy=history_strategy,
          examples={"quick": 150, "thorough": 8000}, shards={"quick": 6, "thorough": 16}),
